@@ -34,6 +34,10 @@ class Path:
         self.pc, self.out, self.exc, self.decisions, self.syntactic = pc, out, exc, decisions, syntactic
 
 
+MAX_DECISIONS_PER_PATH = 300
+ITEM_SECONDS = 45.0  # exploration budget of one configuration (Abort -> inconclusive), set by the driver per harness
+
+
 class Engine:
     def __init__(self, query_timeout_ms=10000, max_paths=4000):
         self.solver = z3.Solver()
@@ -53,6 +57,7 @@ class Engine:
         self.n_feas_unknown = 0
         self.n_paths = 0
         self.solver_s = 0.0
+        self.deadline = None
 
     # ---- path condition -------------------------------------------------------------------
     def _check(self, c):
@@ -78,6 +83,9 @@ class Engine:
         if not self.active:
             raise HarnessError("symbolic branch outside Engine.explore: %s" % cond)
         i = len(self.trace)
+        if i > MAX_DECISIONS_PER_PATH or (self.deadline and time.time() > self.deadline):
+            # a loop whose trip count depends on a symbolic amount (e.g. 'while abs(a - round(a)) > SMALL: a *= 10'): the configuration is inconclusive, never a verdict
+            raise Abort("decision depth %d / time budget of one configuration exceeded" % i)
         if i < len(self.prefix):
             d = self.prefix[i]
         else:
@@ -124,6 +132,8 @@ class Engine:
         ENG = self
         self.work = [[]]
         results = []
+        if ITEM_SECONDS:
+            self.deadline = time.time() + ITEM_SECONDS
         try:
             while self.work:
                 if len(results) >= max_paths:
